@@ -5,6 +5,7 @@ CONSTANTS
   Conts <- cConts
   MaxList = 2
   MaxNodes = 4
+  PairNodes = 0
   OldPaths <- cOldPaths
   NewPaths <- cNewPaths
   MaxPairs = 2
